@@ -148,6 +148,39 @@ def fam_roundtrip(ctx, rng, special=None):
             diff = cmp_dict(d, r.to_dict(), cls)
         if diff:
             ctx.violation('roundtrip:%s:%s:data' % (cls, route), 'defining data changed: %s' % diff, desc)
+    # reading some OTHER, nearly identical description first must not influence what this one is rebuilt as (one differing
+    # coordinate; the same plane turned about its own normal; the optional plane x axis left out)
+    sibs = []
+    for delta in (1.0, 2.0 ** -20):
+        d2 = json.loads(json.dumps(d))
+        if nudge(d2, rng, delta):
+            sibs.append(('coordinate', d2))
+    pd = d if cls == 'Plane' else d.get('plane')
+    if isinstance(pd, dict) and pd.get('x') is not None:
+        n_, x_ = pd['n'], pd['x']
+        y_ = (n_[1] * x_[2] - n_[2] * x_[1], n_[2] * x_[0] - n_[0] * x_[2], n_[0] * x_[1] - n_[1] * x_[0])
+        ang = rng.uniform(0.3, 2.8); c_, s_ = math.cos(ang), math.sin(ang)
+        d2 = json.loads(json.dumps(d)); (d2 if cls == 'Plane' else d2['plane'])['x'] = [c_ * x_[i] + s_ * y_[i] for i in range(3)]
+        sibs.append(('plane_turned', d2))
+        d3 = json.loads(json.dumps(d)); (d3 if cls == 'Plane' else d3['plane']).pop('x')
+        sibs.append(('plane_x_left_out', d3))
+    unrelated = make_full(rng, cls).to_dict() if sibs else None
+    for what, sib in sibs:
+        for route in ('dict', 'dispatcher'):
+            try:
+                if rng.random() < 0.7:      # something unrelated was read before the pair
+                    (type(o).from_dict if route == 'dict' else geometry_dict_to_object)(json.loads(json.dumps(unrelated)))
+                (type(o).from_dict if route == 'dict' else geometry_dict_to_object)(json.loads(json.dumps(sib)))
+            except Exception:
+                continue
+            try:
+                r = (type(o).from_dict if route == 'dict' else geometry_dict_to_object)(json.loads(json.dumps(d)))
+            except Exception as e:
+                ctx.violation('roundtrip:%s:after_sibling:raises' % cls, '%r' % (e,), desc); return
+            diff = cmp_dict(json.loads(json.dumps(d)), json.loads(json.dumps(r.to_dict())), cls)
+            if diff:
+                ctx.violation('roundtrip:%s:after_sibling:%s' % (cls, what), 'rebuilt right after a description that differs only in %s, the defining data '
+                              'changed: %s' % (what, diff), dict(desc, sibling=sib)); return
 
 
 def list_(x):
@@ -176,11 +209,32 @@ def fam_equality(ctx, rng):
     r = type(o).from_dict(o.to_dict())
     if r == o and hash(r) != hash(o):
         ctx.violation('eq:%s:hash' % cls, 'equal objects with different hashes', desc); return
+    # != is the negation of == (same object, duplicate, rebuilt)
+    for b_, what in ((o, 'itself'), (dup, 'duplicate'), (r, 'rebuilt')):
+        if (o != b_) == (o == b_) or (b_ != o) == (b_ == o):
+            ctx.violation('eq:%s:ne_inconsistent' % cls, '== and != agree on the object and its %s' % what, desc); return
+    # the sibling class with the very same vertices, and the same polyline with the other `interpolated` flag, are different objects
+    sib = None
+    if cls == 'Polygon2D': sib = Polyline2D(o.vertices)
+    elif cls == 'Polyline2D': sib = rng.choice([Polygon2D(o.vertices), Polyline2D(o.vertices, not o.interpolated)])
+    elif cls == 'Polyline3D': sib = Polyline3D(o.vertices, not o.interpolated)
+    elif cls == 'LineSegment2D': sib = Ray2D(o.p, o.v)
+    elif cls == 'LineSegment3D': sib = Ray3D(o.p, o.v)
+    elif cls == 'Ray2D': sib = LineSegment2D(o.p, o.v)
+    elif cls == 'Ray3D': sib = LineSegment3D(o.p, o.v)
+    elif cls == 'Cone': sib = Cylinder(o.vertex, o.axis, o.angle)
+    elif cls == 'Cylinder': sib = Cone(o.center, o.axis, min(1.5, o.radius))
+    if sib is not None:
+        if (o == sib) or (sib == o) or not (o != sib) or not (sib != o):
+            ctx.violation('eq:%s:same_data_sibling' % cls, 'a %s with the same defining values: == gives %r / %r, != gives %r / %r' % (
+                type(sib).__name__ + ('' if type(sib) is not type(o) else ' with the other flag'), o == sib, sib == o, o != sib, sib != o), desc); return
     # another shape class compares unequal
     other = make_full(rng, rng.choice([c for c in Bd.ALL_CLASSES if c != cls]))
     pv = {('Point2D', 'Vector2D'), ('Vector2D', 'Point2D'), ('Point3D', 'Vector3D'), ('Vector3D', 'Point3D')}
     if (o == other) and (cls, type(other).__name__) not in pv:
         ctx.violation('eq:%s:other_class' % cls, 'equal to a %s' % type(other).__name__, desc); return
+    if (o != other) == (o == other):
+        ctx.violation('eq:%s:ne_inconsistent' % cls, '== and != agree against a %s' % type(other).__name__, desc); return
     # any differing coordinate makes it unequal: nudge one defining coordinate by one ulp-ish amount and by an integer
     d = o.to_dict()
     if cls == 'Face3D' and d.get('holes'):
@@ -200,6 +254,8 @@ def fam_equality(ctx, rng):
                           dict(desc, other=d2)); return
         if (m == o) != (o == m):
             ctx.violation('eq:%s:symmetric' % cls, 'a == b differs from b == a', desc); return
+        if (m != o) == (m == o) or (o != m) == (o == m):
+            ctx.violation('eq:%s:ne_inconsistent' % cls, '== and != agree on objects with a differing coordinate', desc); return
     if cls in ('Point2D', 'Point3D'):
         v = (Vector2D if cls == 'Point2D' else Vector3D)(*tuple(o))
         if not (o == v and v == o and hash(o) == hash(v)):
